@@ -157,13 +157,14 @@ AtAssert(bq, iq) == ~AtEnd(bq, iq) /\ StmtsOf(bq)[iq].op = "assert"
 AtA(bq, iq) == AtAssert(bq, iq) /\ StmtsOf(bq)[iq].id = a
 SameCond == Holds(StmtsOf(b1)[i1].c, s1) = Holds(StmtsOf(b1)[i1].c, s2)
 
-DataFlow      == (a # 0 /\ mode = "L" /\ dv = 0 /\ AtA(b1, i1)) => SameCond
-ImplicitFlow  == (a # 0 /\ mode = "L" /\ dv = 1 /\ AtA(b1, i1)) => SameCond
+(* PrintT lines are coverage counters only (collected by tools/checks/c18.py): RA = an execution stands at an
+   assertion, PA = a pair of copies stands at the tracked assertion (third field: 1 after a divergence) *)
+DataFlow      == (a # 0 /\ mode = "L" /\ dv = 0 /\ AtA(b1, i1)) => (PrintT(<<"PA", P.id, 0, ob, a, v>>) /\ SameCond)
+ImplicitFlow  == (a # 0 /\ mode = "L" /\ dv = 1 /\ AtA(b1, i1)) => (PrintT(<<"PA", P.id, 1, ob, a, v>>) /\ SameCond)
 ControlDep    == (a # 0 /\ mode = "R") => /\ ~(~w1 /\ AtA(b1, i1))
                                           /\ ~(~w2 /\ AtA(b2, i2))
-ReachedListed == (a = 0 /\ AtAssert(b1, i1)) => StmtsOf(b1)[i1].id \in ListedIdsOf(P, ob)
+ReachedListed == (a = 0 /\ AtAssert(b1, i1)) => (PrintT(<<"RA", P.id, ob, StmtsOf(b1)[i1].id>>) /\ StmtsOf(b1)[i1].id \in ListedIdsOf(P, ob))
 
-NoDiv == ~(dv = 1 /\ mode = "L" /\ a # 0 /\ AtA(b1, i1))
 Compact == [prog |-> P.id, from_block |-> ob, assertion |-> a, variable |-> v, md |-> mode, diverged |-> dv, rejoin |-> rj,
             blk1 |-> b1, idx1 |-> i1, state1 |-> s1, blk2 |-> b2, idx2 |-> i2, state2 |-> s2]
 ===========================================================================
